@@ -63,6 +63,23 @@ STRENGTH.update({
  "C17-4":"every integer a running conversation emits (g^y, the committed g^x, next D-H keys) must be minimal, with scripted tiny exponents",
  "C18-4":"texts that Send refused in the finished state must never reach the wire",
  "C20-4":"a configuration with two fragmenting threads (T2/k11), so that a buffer handed out by one conversation can be overwritten by the other"})
+BEFORE.update({
+ "C01-5":"missed","C02-5":"missed by C02 (caught by C18, whose property it breaks: the resent text is not the text the user gave)","C03-5":"missed","C04-5":"caught","C05-5":"missed (caught by C18)","C06-5":"caught","C07-5":"caught","C08-5":"missed","C09-5":"caught","C10-5":"missed by C10 (caught by C14 and C15)",
+ "C11-5":"missed","C12-5":"missed","C13-5":"caught","C14-5":"caught","C15-5":"missed","C16-5":"missed","C17-5":"missed by C17 (caught by C20)","C18-5":"missed","C19-5":"missed","C20-5":"caught (exhaustive parts and race pass)"})
+STRENGTH.update({
+ "C01-5":"new exchanges with the same roles as the recorded one (its D-H Key fits the position) and a new clause: the peer D-H value kept for the data messages must be the one the reported SSID derives from",
+ "C02-5":"none in C02 (the delivered message is authentic and unmodified; that the library resends a wiped text is C18's subject and C18 reports it)",
+ "C03-5":"v2 configurations with required encryption; the monitor classifies a text by the policy the application configured, not by what the library holds at the time",
+ "C05-5":"event: one side ends the session, the other (encryption required) leaves the finished state and writes a text that starts the next exchange",
+ "C08-5":"the disconnect written padding-TLV-first (as another implementation may), and the lifetime model kills the session's secrets when the peer's disconnect is DELIVERED, whatever the conversation makes of it",
+ "C10-5":"the reference peer fragments what it sends and both instance tags have the top bit set; it also writes a padding TLV first; a session the reference ended must be over at quiescence",
+ "C11-5":"history Hk: after an SMP run the peer comes back with another long-term key and the session is replaced by a refresh",
+ "C12-5":"a well-formed SMP message that the state does not expect must be answered with error / cheating / failure / abort (being asked for the secret again is not a refusal); a deviant message must not be swallowed silently",
+ "C15-5":"a data message cut off after its header as a further ill-formed carrier of valid tags; this exposed a gap in the earlier repair (flagged data messages suppress the error), repaired in 861e6e8",
+ "C16-5":"one text of every length 1..2100 through Send and Receive (buffer capacity classes)",
+ "C17-5":"serialisations and fingerprints of all keys are held while the others are produced, then parsed back",
+ "C18-5":"within one call's output the message that completes the key exchange must precede the data messages of the session it opens",
+ "C19-5":"letter M (malformed fragment with an instance tag below 0x100) in the pattern alphabet"})
 rows=[]
 for d in sorted(glob.glob(os.path.join(ROOT,'seeded','C*'))):
     pid=os.path.basename(d)
